@@ -12,6 +12,9 @@ int pthread_mutex_unlock(pthread_mutex_t *m) { if (!g_locked || m != &in_locks[S
 void h_sched(void) {
   in_sh.taskq.queue = in_queue; in_sh.lu_locks = in_locks; in_sh.spin_locks = in_spin; in_sh.pan_status = in_pan; in_sh.fb_cols = in_fb;
   pxgstrf_scheduler(in_pnum, in_n, in_etree, &in_cur, &in_bcol, &in_sh);
+  /* representation invariant the PC(CAP) proof rests on when it is read for n > CAP: the per-panel counters range up to n (fan-in of an
+   * etree node / of the dummy root, panel size and negative offsets), so their type must hold every int_t value (seed C04c) */
+  __CPROVER_assert(sizeof(((pan_status_t *)0)->ukids) >= sizeof(int_t) && sizeof(((pan_status_t *)0)->size) >= sizeof(int_t) && (int_t)-1 < 0, "panel record: the counters ukids and size are as wide as int_t and signed");
   __CPROVER_assert(0, "canary: scheduler returns");
   if (in_cur == EMPTY) __CPROVER_assert(0, "canary: no panel available");
   if (in_cur != EMPTY && g_cur0 != EMPTY && in_cur == in_etree[g_cur0 + in_pan[g_cur0].size - 1]) __CPROVER_assert(0, "canary: parent panel handed out");
